@@ -219,7 +219,7 @@ def expected_label(job):
     return '{}: {}'.format(job._sched_id, job.label)
 
 
-def compare(s, g, errs, top=True):
+def compare(s, g, errs, top=True, inherited=None):
     """s: scheduler, g: parsed body for it"""
     ident = lambda j: j._sched_id
     sname = getattr(s, '_sched_id', None) or 'top'
@@ -281,14 +281,17 @@ def compare(s, g, errs, top=True):
     if sorted(got) != sorted(exp):
         errs.append('scheduler %s: edges %r, requirements %r' % (sname, sorted(got), sorted(exp)))
     # cluster attributes and recursion
+    # DOT semantics: the `graph [...]` attributes of a (sub)graph are the defaults of the subgraphs nested in it
+    effective = dict(inherited or {})
+    effective.update(g.attrs)
     if not top:
-        if g.attrs.get('label') != expected_label(s):
-            errs.append('cluster %s: label %r, expected %r' % (s._sched_id, g.attrs.get('label'), expected_label(s)))
-        errs.extend(style_errors(s, g.attrs, 'cluster %s' % s._sched_id))
+        if effective.get('label') != expected_label(s):
+            errs.append('cluster %s: label %r, expected %r' % (s._sched_id, effective.get('label'), expected_label(s)))
+        errs.extend(style_errors(s, effective, 'cluster %s (attributes in effect, inherited ones included)' % s._sched_id))
     for sub in g.subs:
         c = clusters.get(sub.name)
         if c is not None:
-            compare(c, sub, errs, top=False)
+            compare(c, sub, errs, top=False, inherited={k: v for k, v in effective.items() if k != 'compound'})
 
 
 def check_dot(top):
@@ -313,6 +316,56 @@ def check_dot(top):
         if not _ID.fullmatch(i):
             errs.append('id %r is not a DOT identifier' % i)
     compare(top, g, errs)
+    return errs
+
+
+# ------------------------------------------------------------------------------ the dot binary, when present
+import shutil
+import subprocess
+DOT = shutil.which('dot')
+_G = re.compile(r'<g id="[^"]*" class="(cluster|node)">\s*<title>([^<]*)</title>\s*<(?:polygon|path)([^>]*)>')
+
+
+def check_with_dot_binary(top):
+    """render with graphviz and read the border of every cluster and node back from the SVG"""
+    if DOT is None:
+        return []
+    try:
+        text = top.dot_format()
+    except Exception:
+        return []                                  # reported by check_dot
+    p = subprocess.run([DOT, '-Tsvg'], input=text.encode(), capture_output=True)
+    if p.returncode != 0 or b'syntax error' in p.stderr:
+        return ['the dot binary rejects the output: %s' % p.stderr.decode(errors='replace')[:200]]
+    svg = p.stdout.decode(errors='replace')
+    drawn = {}
+    for kind, title, attrs in _G.findall(svg):
+        drawn[(kind, title)] = attrs
+    errs = []
+    if p.stderr.strip():
+        errs.append('the dot binary warns: %s' % p.stderr.decode(errors='replace')[:200])
+    # graphviz does not draw a cluster that holds no node: not a property of the DOT text
+    hollow = [j for j in all_under(top) if is_sched(j) and not atoms_under(j)]
+    for j in all_under(top):
+        if j in hollow:
+            continue
+        key = ('cluster', 'cluster_%s' % j._sched_id) if is_sched(j) else ('node', j._sched_id)
+        a = drawn.get(key)
+        if a is None:
+            errs.append('graphviz draws no %s for %s' % (key[0], j._sched_id))
+            continue
+        red = 'stroke="red"' in a
+        dashed = 'stroke-dasharray' in a
+        thick = 'stroke-width="2"' in a
+        if red != bool(j.is_critical()) or thick != bool(j.is_critical()):
+            errs.append('graphviz draws %s %s with %s although critical=%r' % (key[0], j._sched_id, a.strip()[:80], j.is_critical()))
+        if dashed != bool(j.forever):
+            errs.append('graphviz draws %s %s %s although forever=%r' % (key[0], j._sched_id, 'dashed' if dashed else 'solid', j.forever))
+    n_nodes = sum(1 for k in drawn if k[0] == 'node')
+    n_clusters = sum(1 for k in drawn if k[0] == 'cluster')
+    if n_nodes != len(atoms_under(top)) or n_clusters != len(all_under(top)) - len(atoms_under(top)) - len(hollow):
+        errs.append('graphviz draws %d nodes and %d clusters for %d atomic jobs and %d nested schedulers'
+                    % (n_nodes, n_clusters, len(atoms_under(top)), len(all_under(top)) - len(atoms_under(top))))
     return errs
 
 
@@ -448,6 +501,15 @@ def random_spec(rng, depth, maxdepth, maxmembers=4):
 
 
 def cases(tier, rng):
+    n = 0
+    for case in _cases(tier, rng):
+        n += 1
+        if DOT is not None and (tier != 'quick' or case['kind'] in ('c20-label', 'c20-flags', 'c20-nest') or n % 8 == 0):
+            case['dot'] = True
+        yield case
+
+
+def _cases(tier, rng):
     atom = lambda lab='a', **kw: dict({'atom': True, 'label': lab}, **kw)
     # 1. every label at every position of a small fixed tree
     for lab in LABELS:
@@ -458,6 +520,11 @@ def cases(tier, rng):
         yield {'kind': 'c20-flags', 'spec': {'members': [atom(critical=c1, forever=f1),
                                                          {'members': [atom()], 'edges': [], 'critical': c2, 'forever': f2}],
                                              'edges': [[1, 0]]}}
+    for flags in itertools.product([False, True], repeat=6):
+        c1, f1, c2, f2, c3, f3 = flags
+        yield {'kind': 'c20-nest', 'spec': {'members': [
+            {'members': [{'members': [{'members': [atom()], 'edges': [], 'critical': c3, 'forever': f3}, atom()], 'edges': [],
+                          'critical': c2, 'forever': f2}, atom()], 'edges': [[1, 0]], 'critical': c1, 'forever': f1}], 'edges': []}}
     # 3. all DAGs over up to 3 (quick) / 4 members, with every choice of which members are nested schedulers of
     #    0, 1 or 2 jobs (depth 2), then one shape at depth 3
     nmax = 3 if tier == 'quick' else 4
@@ -484,7 +551,10 @@ KNOWN_EMPTY = '[empty-nested-scheduler-in-requirement] '
 def run(case):
     spec = case['spec']
     errs = []
-    for fn in (check_dot, check_list):
+    fns = [check_dot, check_list]
+    if case.get('dot'):
+        fns.append(check_with_dot_binary)
+    for fn in fns:
         top = build_tree(spec)
         errs.extend(fn(top))
     if not errs:
